@@ -104,11 +104,15 @@ def run(ctx):
         evs = [ev for ev, _d in flatten_events(p.events)]
         writes = {}
         for ev in evs:
-            if ev[0] == "write" and is_call(ev[2], "builtin:open") and ev[2][2]:
+            if ev[0] == "write" and is_call(ev[2], ("builtin:open", "ext:os.fdopen")) and ev[2][2]:
                 path, mode = ev[2][2][0], (ev[2][2][1] if len(ev[2][2]) > 1 else dict(ev[2][3]).get("mode"))
+                if is_call(path, "ext:os.open") and path[2] and "O_APPEND" not in show(path[2][1] if len(path[2]) > 1 else C(0)) and "O_TRUNC" in show(path[2][1] if len(path[2]) > 1 else C(0)):
+                    path = path[2][0]  # a descriptor opened (truncating) on that path
                 if isinstance(path, tuple) and path[0] == "binop" and path[1] == "+" and path[2] == fname and is_const(path[3]) and mode is not None and is_const(mode) and "b" in str(mode[2]) and "w" in str(mode[2]):
                     writes[path[3][2]] = eng.expand(ev[3])
         v = p.value
+        if isinstance(v, tuple) and len(v) == 3 and v[0] == "nt" and len(v[2]) == 2:
+            v = ("lit", "tuple", v[2], None)  # a two-field NamedTuple unpacks like the pair
         if not (is_lit(v, "tuple") and len(v[2]) == 2):
             ok, why = False, "does not return the (private, public) pair"
             break
@@ -130,6 +134,10 @@ def run(ctx):
 
     def is_read_of(t, suffix):
         """t == open(name + suffix, <binary read mode>).read()"""
+        if is_call(t, "method:read") and len(t[2]) == 2 and is_call(t[2][0], "builtin:open") and (_const_int(t[2][1]) or 0) > 32 and cur_state[0] is not None and cur_state[0].holds(("eq", CallT("builtin:len", [t]), C(32))):
+            # a bounded read of more than a key's worth, on a path that found exactly 32 bytes:
+            # the whole file
+            t = ("call", "method:read", (t[2][0],), ())
         if not (is_call(t, "method:read") and len(t[2]) == 1 and is_call(t[2][0], "builtin:open")):
             return False
         h = t[2][0]
@@ -137,8 +145,12 @@ def run(ctx):
         mode = h[2][1] if len(h[2]) > 1 else dict(h[3]).get("mode")
         return path == ("binop", "+", name, C(suffix)) and mode is not None and is_const(mode) and "b" in str(mode[2]) and "r" in str(mode[2]) and "+" not in str(mode[2])
 
+    cur_state = [None]
     for p in rets:
         v = eng.expand(p.value)
+        cur_state[0] = State(facts=p.facts)
+        if isinstance(v, tuple) and len(v) == 3 and v[0] == "nt" and len(v[2]) == 2:
+            v = ("lit", "tuple", v[2], None)
         good = (
             is_lit(v, "tuple")
             and len(v[2]) == 2
@@ -200,3 +212,14 @@ def run(ctx):
     rejects = [p for p in ck.paths if p.kind == "raise"]
     ok = ok and bool(rejects) and all(eng.prog.exc_is_sub(p.value.exc, "TypeError") for p in rejects)
     ctx.ob("R4", "key-gate", fn_site(eng, ck).loc(), "checkformat_key %s" % ("accepts exactly instances of the two Ed25519 key classes" if ok else "is not the isinstance gate over both Ed25519 key classes"), ok)
+
+
+def _const_int(t):
+    """value of an integer expression built from constants (32 + 1), else None"""
+    if is_const(t) and isinstance(t[2], int) and not isinstance(t[2], bool):
+        return t[2]
+    if isinstance(t, tuple) and len(t) == 4 and t[0] == "binop" and t[1] in ("+", "-", "*"):
+        a, b = _const_int(t[2]), _const_int(t[3])
+        if a is not None and b is not None:
+            return {"+": a + b, "-": a - b, "*": a * b}[t[1]]
+    return None
